@@ -503,11 +503,28 @@ impl Sweep for SeveralFaults {
                 s.enter("RUN");
                 let run = s.take();
                 s.enter("LIST");
-                (run, s.take())
+                let list = s.take();
+                // every line deleted again: nothing is left of the program or of its diagnostics
+                for l in &p {
+                    s.enter(l.split(' ').next().unwrap_or(""));
+                }
+                s.take();
+                s.enter("RUN");
+                let emptied_run = s.take();
+                s.enter("GOTO 20");
+                let emptied_goto = s.take();
+                (run, list, emptied_run, emptied_goto)
             });
             match r {
                 Err(pn) => ctx.violation("several-faults/panic", pn),
-                Ok((run, list)) => {
+                Ok((run, list, emptied_run, emptied_goto)) => {
+                    if emptied_run.iter().any(|e| matches!(e, Ev::Err(_) | Ev::Out(_))) {
+                        ctx.violation("emptied-program/RUN-still-reports-or-runs", format!("{} : after deleting every line RUN gave {:?}", p.join(" / "), crate::driver::render(&emptied_run)));
+                    }
+                    let named: Vec<&crate::driver::ErrInfo> = emptied_goto.iter().flat_map(|e| if let Ev::Err(v) = e { v.iter().collect() } else { vec![] }).collect();
+                    if named.is_empty() || named.iter().any(|e| e.line.is_some()) {
+                        ctx.violation("emptied-program/GOTO-does-not-report-a-missing-line-of-the-direct-statement", format!("{} : after deleting every line GOTO 20 gave {:?}", p.join(" / "), crate::driver::render(&emptied_goto)));
+                    }
                     let errs: Vec<&crate::driver::ErrInfo> = run.iter().flat_map(|e| if let Ev::Err(v) = e { v.iter().collect() } else { vec![] }).collect();
                     ctx.nontrivial(hash64(&(p.len(), errs.len(), &p[0], &p[1])));
                     let printed: String = run.iter().filter_map(|e| if let Ev::Out(t) = e { Some(t.clone()) } else { None }).collect();
